@@ -230,6 +230,9 @@ func execC08(t *testing.T, c any, o *Outcome) {
 		checkCommonEdges(o, pc.Ref, swapRec.Text, pc.Tips)
 		checkCommonEdges(o, swapRec.Text, pc.Ref, pc.Tips)
 	}
+	if pc.Chunk == 1 && len(o.Viols) == 0 {
+		checkCompareCLI(t, o, pc)
+	}
 	if fkind != "" {
 		ok := guard(o, "CommonEdges", func() {
 			a, b := mustParse(pc.Ref), mustParse(pc.Recs[fpos].Text)
